@@ -48,22 +48,22 @@ inline std::string vclass(Cat &C, mpz_srcptr v) {
 	return "scalar";
 }
 
-struct VMut { std::string mut, text; bool judged; };
+struct VMut { std::string mut, text; bool judged; std::string why; };   // why: reason an unjudged mutation is an equivalent representation
 
 // value-level catalogue for one integer (line or field)
 inline std::vector<VMut> value_muts(Cat &C, const std::string &cls, mpz_srcptr v, bool full, bool unjudged_too) {
 	std::vector<VMut> o; mpz_ptr t = C.t;
-	auto add = [&](const char *nm, bool judged = true) { o.push_back({nm, mpz_b62(t), judged}); };
+	auto add = [&](const char *nm, bool judged = true, const char *why = "") { o.push_back({nm, mpz_b62(t), judged, why}); };
 	if (C.qr) {
 		mpz_add_ui(t, v, 1); add("+1");
 		mpz_mul_2exp(t, v, 1); mpz_mod(t, t, C.m); add("2v");
 		mpz_set_ui(t, 0); add("zero");
 		mpz_set_ui(t, 1); add("one");
 		if (full || unjudged_too) {
-			mpz_neg(t, v); add("neg", false);
-			mpz_sub(t, C.m, v); add("m-v", false);
-			mpz_add(t, v, C.m); add("+m", false);
-			mpz_set(t, C.m); add("m", false);
+			mpz_neg(t, v); add("neg", false, "same-square");
+			mpz_sub(t, C.m, v); add("m-v", false, "same-square");
+			mpz_add(t, v, C.m); add("+m", false, "same-residue-mod-m");
+			mpz_set(t, C.m); add("m", false, "not-judged-by-design");
 		}
 		return o;
 	}
@@ -86,7 +86,7 @@ inline std::vector<VMut> value_muts(Cat &C, const std::string &cls, mpz_srcptr v
 }
 
 struct LineMut {
-	size_t k = 0; int field = -1; std::string role, mut, orig, text; enum Op { REPL, DEL, SWAP } op = REPL; bool judged = true, equal = false;
+	size_t k = 0; int field = -1; std::string role, mut, orig, text, why; enum Op { REPL, DEL, SWAP } op = REPL; bool judged = true, equal = false;
 };
 
 struct Tok { std::string text; char delim; };
@@ -106,8 +106,9 @@ inline std::string line_role(Cat &C, const std::string &l) {
 }
 
 // cut-and-choose protocols re-read 640 MiB line buffers per round: their structured fields are sampled in quick
-inline bool heavy(const std::string &proto) { return proto.compare(0, 12, "tmcg/stackeq") == 0; }
+inline bool heavy(const std::string &proto) { return proto.compare(0, 12, "tmcg/stackeq") == 0 || proto == "rabin/key-nizk"; }
 inline size_t blocks_of(const std::string &proto) {
+	if (proto == "rabin/key-nizk") return 2;
 	if (heavy(proto)) return 6;
 	if (proto == "tmcg/maskcard-qr" || proto == "tmcg/cardsecret-qr") return 3;
 	if (proto.compare(0, 6, "hoogh/") == 0 || proto.compare(0, 10, "tmcg/hoogh") == 0 || proto.compare(0, 6, "groth/") == 0 || proto.compare(0, 10, "tmcg/groth") == 0) return 2;
@@ -120,8 +121,8 @@ inline std::vector<LineMut> gen_line_muts(Cat &C, const std::vector<std::string>
 	size_t rot = 0;
 	for (size_t k = 0; k < pl.size(); k++) {
 		const std::string &l = pl[k];
-		auto push = [&](int field, const std::string &role, const std::string &mut, const std::string &orig, const std::string &text, bool judged, LineMut::Op op = LineMut::REPL) {
-			LineMut m; m.k = k; m.field = field; m.role = role; m.mut = mut; m.orig = orig; m.text = text; m.judged = judged; m.op = op;
+		auto push = [&](int field, const std::string &role, const std::string &mut, const std::string &orig, const std::string &text, bool judged, LineMut::Op op = LineMut::REPL, const std::string &why = "") {
+			LineMut m; m.why = why; m.k = k; m.field = field; m.role = role; m.mut = mut; m.orig = orig; m.text = text; m.judged = judged; m.op = op;
 			m.equal = (op == LineMut::REPL && text == l) || (op == LineMut::SWAP && (k + 1 >= pl.size() || pl[k + 1] == l));
 			out.push_back(m);
 		};
@@ -133,7 +134,7 @@ inline std::vector<LineMut> gen_line_muts(Cat &C, const std::vector<std::string>
 				auto with = [&](const std::string &nf) { std::vector<Tok> T2 = T; T2[j].text = nf; return join_fields(T2); };
 				if (f.empty() && j > 0 && T[j - 1].delim == '|' && T[j].delim == '^') {
 					// "crs|r|<here>^": text after the last delimiter of the nested record, ignored by its field parser (equivalent representation)
-					if (full) push((int)j, tag + ".trailer", "append-after-last-delimiter", f, with("x"), false);
+					if (full) push((int)j, tag + ".trailer", "append-after-last-delimiter", f, with("x"), false, LineMut::REPL, "text-after-last-delimiter");
 					continue;
 				}
 				if (is_tag(f) || (f.size() >= 3 && f.compare(0, 2, "ID") == 0 && is_dec(f.substr(2)))) {
@@ -155,7 +156,7 @@ inline std::vector<LineMut> gen_line_muts(Cat &C, const std::vector<std::string>
 					std::vector<VMut> VM = value_muts(C, cls, v, full, ni_qr);
 					for (size_t i = 0; i < VM.size(); i++) {
 						if (!full && heavy(proto) && ((rot++) % 3) != 0) continue;      // quick: every third (field, mutation) pair, rotating
-						push((int)j, role, VM[i].mut, f, with(VM[i].text), VM[i].judged);
+						push((int)j, role, VM[i].mut, f, with(VM[i].text), VM[i].judged, LineMut::REPL, VM[i].why);
 					}
 					if (full) push((int)j, role, "empty", f, with(""), true);
 					continue;
@@ -163,10 +164,10 @@ inline std::vector<LineMut> gen_line_muts(Cat &C, const std::vector<std::string>
 				role = tag + ".text";
 				{ std::string nf = f; if (nf.empty()) nf = "x"; else nf[nf.size() / 2] = (nf[nf.size() / 2] == 'x' ? 'y' : 'x'); push((int)j, role, "corrupt", f, with(nf), true); }
 			}
-			if (full) push(-1, lrole, "append-after-last-delimiter", l, l + "x", false);
+			if (full) push(-1, lrole, "append-after-last-delimiter", l, l + "x", false, LineMut::REPL, "text-after-last-delimiter");
 		} else if (parse62(l, v)) {
 			std::string cls = vclass(C, v); lrole = cls;
-			for (auto &vm : value_muts(C, cls, v, full, ni_qr)) push(-1, cls, vm.mut, l, vm.text, vm.judged);
+			for (auto &vm : value_muts(C, cls, v, full, ni_qr)) push(-1, cls, vm.mut, l, vm.text, vm.judged, LineMut::REPL, vm.why);
 		} else lrole = "text";
 		push(-1, lrole, "delete", l, "", true, LineMut::DEL);
 		if (full || C.qr) push(-1, lrole, "truncate", l, l.substr(0, l.size() ? l.size() - 1 : 0), true);
@@ -175,24 +176,34 @@ inline std::vector<LineMut> gen_line_muts(Cat &C, const std::vector<std::string>
 	mpz_clear(v); return out;
 }
 
-struct PubMut { std::string mut; mpz_t v; bool judged; PubMut(const std::string &m, mpz_srcptr x, bool j) : mut(m), judged(j) { mpz_init_set(v, x); } PubMut(const PubMut &o) : mut(o.mut), judged(o.judged) { mpz_init_set(v, o.v); } ~PubMut() { mpz_clear(v); } };
+struct PubMut { std::string mut, why; mpz_t v; bool judged; PubMut(const std::string &m, mpz_srcptr x, bool j, const std::string &w) : mut(m), why(w), judged(j) { mpz_init_set(v, x); } PubMut(const PubMut &o) : mut(o.mut), why(o.why), judged(o.judged) { mpz_init_set(v, o.v); } ~PubMut() { mpz_clear(v); } };
 
+// Public inputs (altered in the verifier's view only).  Judged: changes to another WELL-FORMED value (another group
+// element / residue / Z_m value).  Executed and recorded, not judged:
+//   v+p, v+q          the same element / residue for a verifier computing mod p / mod q; a public input is a function
+//                     argument, not a transmitted value (the refusal clause of the property speaks of the latter)
+//   (-1)*v, -v, 0, p-1 as an "element": the statement is ill-formed (input outside the group); validating received
+//                     cards / keys (CheckElement) is the caller's step and the subject of C06
 inline std::vector<PubMut> gen_pub_muts(Cat &C, const std::string &kind, mpz_srcptr v, mpz_srcptr next, bool full) {
 	std::vector<PubMut> o; mpz_ptr t = C.t;
-	auto add = [&](const char *nm, bool judged = true) { o.push_back(PubMut(nm, t, judged)); };
+	auto add = [&](const char *nm, bool judged = true, const char *why = "") { o.push_back(PubMut(nm, t, judged, why)); };
 	mpz_add_ui(t, v, 1); add("+1");
 	if (kind == "qr") {
 		mpz_mul_2exp(t, v, 1); mpz_mod(t, t, C.m); add("2v");
-		if (full) { mpz_set_ui(t, 0); add("zero"); mpz_set_ui(t, 1); add("one"); mpz_neg(t, v); add("neg", false); mpz_add(t, v, C.m); add("+m", false); }
+		if (full) { mpz_set_ui(t, 0); add("zero"); mpz_set_ui(t, 1); add("one"); mpz_neg(t, v); add("neg", false, "same-square"); mpz_add(t, v, C.m); add("+m", false, "same-residue-mod-m"); }
 	} else if (kind == "elem") {
 		mpz_mul(t, v, C.g); mpz_mod(t, t, C.p); add("other");
-		// v+p is the same element for every verifier computing mod p (a public input is not a transmitted value: the
-		// refusal clause of the property does not apply): executed and recorded, not judged
-		mpz_add(t, v, C.p); add("+p", false);
-		if (full) { mpz_neg(t, v); mpz_mod(t, t, C.p); add("nonmember"); mpz_set_ui(t, 0); add("zero"); mpz_set_ui(t, 1); add("one"); mpz_sub_ui(t, C.p, 1); add("p-1"); mpz_neg(t, v); add("neg"); }
+		mpz_add(t, v, C.p); add("+p", false, "same-element-mod-p");
+		if (full) {
+			mpz_set_ui(t, 1); add("one");
+			mpz_neg(t, v); mpz_mod(t, t, C.p); add("nonmember", false, "ill-formed-statement");
+			mpz_set_ui(t, 0); add("zero", false, "ill-formed-statement");
+			mpz_sub_ui(t, C.p, 1); add("p-1", false, "ill-formed-statement");
+			mpz_neg(t, v); add("neg", false, "ill-formed-statement");
+		}
 	} else if (kind == "exp") {
 		mpz_mul_ui(t, v, 3); mpz_add_ui(t, t, 7); mpz_mod(t, t, C.q); add("other");
-		mpz_add(t, v, C.q); add("+q", false);                                                       // same residue mod q: recorded, not judged
+		mpz_add(t, v, C.q); add("+q", false, "same-residue-mod-q");
 		if (full) { mpz_set_ui(t, 0); add("zero"); mpz_neg(t, v); add("neg"); }
 	}
 	if (full && next) { mpz_set(t, next); add("swap-next"); }
